@@ -140,6 +140,11 @@ Definition tables_ok : bool :=
 Lemma tables_sweep : tables_ok = true.
 Proof. vm_compute. reflexivity. Qed.
 
+Lemma fmts_sweep : forallb fmt_ok std_ids = true.
+Proof. vm_compute. reflexivity. Qed.
+Lemma pairs_sweep : forallb (fun s => forallb (pair_ok s) std_ids) std_ids = true.
+Proof. vm_compute. reflexivity. Qed.
+
 Lemma std_known_in f : std_known f = true -> In f std_ids.
 Proof.
   unfold std_known, std_ids. rewrite existsb_exists. intros (r & Hin & E).
@@ -148,14 +153,13 @@ Qed.
 
 Lemma fmt_ok_std f : std_known f = true -> fmt_ok f = true.
 Proof.
-  intros H. apply std_known_in in H. pose proof tables_sweep as S. unfold tables_ok in S.
-  apply andb_true_iff in S as [S _]. rewrite forallb_forall in S. now apply S.
+  intros H. apply std_known_in in H. pose proof fmts_sweep as S. rewrite forallb_forall in S. now apply S.
 Qed.
 
 Lemma pair_ok_std s t : std_known s = true -> std_known t = true -> pair_ok s t = true.
 Proof.
-  intros Hs Ht. apply std_known_in in Hs, Ht. pose proof tables_sweep as S. unfold tables_ok in S.
-  apply andb_true_iff in S as [_ S]. rewrite forallb_forall in S. specialize (S s Hs).
+  intros Hs Ht. apply std_known_in in Hs, Ht. pose proof pairs_sweep as S.
+  rewrite forallb_forall in S. specialize (S s Hs).
   rewrite forallb_forall in S. now apply S.
 Qed.
 
@@ -398,7 +402,7 @@ Proof.
   pose proof (step_cases S T sp p n Hok Hp Hg Hin) as C.
   inversion C as [G'|v' t' G' Es'|v' t' c' m' b' G' Es' Hl Hv'|v' t' c' m' G' Es' Hv']; try congruence.
   - rewrite G in G'. rewrite Es in Es'. injection G' as <- <-. injection Es' as <- <-. lia.
-  - reflexivity.
+  - symmetry. exact H.
 Qed.
 
 (* the loop over a part ns of the target's dimension names *)
@@ -481,6 +485,13 @@ Proof.
   - apply IH. intros H. apply Hn. now right.
 Qed.
 
+Lemma combine_app_eq {A B} (a c : list A) (b d : list B) : length b = length a ->
+  combine (a ++ c) (b ++ d) = combine a b ++ combine c d.
+Proof.
+  revert b. induction a as [|x a IH]; intros [|y b] H; try discriminate; [reflexivity|].
+  cbn [app combine]. f_equal. apply IH. cbn in H. lia.
+Qed.
+
 Lemma copy_ext_gen (pre eds : list edim) (psrc src : list (list Z)) :
   length psrc = length pre -> length src = length eds -> NoDup (map ed_name (pre ++ eds)) ->
   map (fun e => match find (fun q : edim * list Z => String.eqb (ed_name (fst q)) (ed_name e)) (combine (pre ++ eds) (psrc ++ src)) with
@@ -489,7 +500,7 @@ Proof.
   revert pre psrc src. induction eds as [|a r IH]; intros pre psrc src Hp Hs Hnd.
   - destruct src; [reflexivity|discriminate].
   - destruct src as [|s src]; [discriminate|]. cbn [map]. f_equal.
-    + rewrite combine_app by (now symmetry).
+    + rewrite combine_app_eq by exact Hp.
       assert (forall l1 l2, find (fun q : edim * list Z => String.eqb (ed_name (fst q)) (ed_name a)) l1 = None ->
               find (fun q : edim * list Z => String.eqb (ed_name (fst q)) (ed_name a)) (l1 ++ l2) =
               find (fun q : edim * list Z => String.eqb (ed_name (fst q)) (ed_name a)) l2) as Happ.
@@ -634,14 +645,24 @@ Proof.
   destruct (wf_nth l i da Hwf Hi) as [_ Hl]. destruct Hwf as (_ & Hnd & _). now apply copy_ext_id.
 Qed.
 
+Lemma filter_fst_user (vs : list cvlr) : filter (fun v : cvlr => fst v) (user_vlrs vs) = [].
+Proof.
+  unfold user_vlrs. induction vs as [|[b x] r IH]; [reflexivity|]. cbn [filter fst].
+  destruct b; cbn [negb filter fst]; exact IH.
+Qed.
+
+Lemma user_vlrs_idem (vs : list cvlr) : user_vlrs (user_vlrs vs) = user_vlrs vs.
+Proof.
+  unfold user_vlrs. induction vs as [|[b x] r IH]; [reflexivity|]. cbn [filter fst].
+  destruct b; cbn [negb]; [exact IH|]. cbn [filter fst negb]. now rewrite IH.
+Qed.
+
 Lemma filter_app_eb (vs : list cvlr) eds :
   user_vlrs (vs ++ eb_part eds) = user_vlrs vs /\ filter (fun v : cvlr => fst v) (user_vlrs vs ++ eb_part eds) = eb_part eds.
 Proof.
-  unfold user_vlrs. rewrite !filter_app. split.
-  - destruct eds; cbn; [now rewrite app_nil_r|now rewrite app_nil_r].
-  - assert (filter (fun v : cvlr => fst v) (filter (fun v : cvlr => negb (fst v)) vs) = []) as ->.
-    { induction vs as [|[b x] r IH]; [reflexivity|]. cbn [filter fst]. destruct b; cbn [negb filter fst]; exact IH. }
-    destruct eds; reflexivity.
+  split.
+  - unfold user_vlrs. rewrite filter_app. destruct eds; cbn; now rewrite app_nil_r.
+  - rewrite filter_app, filter_fst_user. destruct eds; reflexivity.
 Qed.
 
 Theorem convert_vlrs l tgt ver l' : convert l tgt ver = Ok l' ->
@@ -652,9 +673,7 @@ Theorem convert_vlrs l tgt ver l' : convert l tgt ver = Ok l' ->
 Proof.
   intros H. apply convert_inv in H as (hs & _ & _ & _ & He & _ & Hv & _). rewrite Hv, He.
   destruct (filter_app_eb (user_vlrs (l_vlrs l)) (l_edims l)) as [F1 F2].
-  assert (user_vlrs (user_vlrs (l_vlrs l)) = user_vlrs (l_vlrs l)) as Hidem.
-  { unfold user_vlrs. induction (l_vlrs l) as [|[b x] r IH]; [reflexivity|]. cbn [filter fst].
-    destruct b; cbn [negb]; [exact IH|]. cbn [filter fst negb]. now rewrite IH. }
+  pose proof (user_vlrs_idem (l_vlrs l)) as Hidem.
   split; [reflexivity|]. split; [now rewrite F1, Hidem|]. split.
   - rewrite <- Hidem at 1. exact F2.
   - intros Hs. now symmetry.
@@ -730,4 +749,42 @@ Proof.
   intros n. rewrite filter_In, dedup_In. split; intros [H1 H2]; (split; [exact H1|]).
   - apply mem_false. now destruct (mem n (dim_names b)).
   - apply mem_false in H2. now rewrite H2.
+Qed.
+
+(* the two directions of convert_outcome, per point and dimension *)
+Theorem convert_narrowing l tgt ver hs i d n v c m : wf_las l ->
+  hstep (mkHS (l_ver l) (l_fmt l)) (HConvert tgt ver) = Ok hs -> (i < length (l_pts l))%nat ->
+  In n (dim_names (hs_f hs)) -> dim_val (l_fmt l) (fst (nth i (l_pts l) d)) n = Some v ->
+  sub_of (hs_f hs) n = Some (c, m) -> (v > sf_max m \/ v < 0) -> convert l tgt ver = Err EOverflow.
+Proof.
+  intros Hwf Hh Hi Hn Hv Hs Hbad.
+  destruct (convert_outcome l tgt ver hs Hwf Hh) as [(l' & _ & Hfit)|[E _]]; [|exact E].
+  exfalso. apply (Hfit (nth i (l_pts l) d)); [now apply nth_In|]. exists n. split; [exact Hn|].
+  unfold dim_val in Hv. destruct (get_dim (l_fmt l) (fst (nth i (l_pts l) d)) n) as [[v' t]|] eqn:G; [|discriminate].
+  cbn [fst] in Hv. injection Hv as ->. exists v, t, c, m. auto.
+Qed.
+
+Theorem convert_fits l tgt ver hs : wf_las l -> hstep (mkHS (l_ver l) (l_fmt l)) (HConvert tgt ver) = Ok hs ->
+  (forall p n v c m, In p (l_pts l) -> In n (dim_names (hs_f hs)) -> dim_val (l_fmt l) (fst p) n = Some v ->
+     sub_of (hs_f hs) n = Some (c, m) -> 0 <= v <= sf_max m) ->
+  exists l', convert l tgt ver = Ok l'.
+Proof.
+  intros Hwf Hh Hall.
+  destruct (convert_outcome l tgt ver hs Hwf Hh) as [(l' & E & _)|(_ & p & Hp & n & Hn & v & t & c & m & G & Hs & Hbad)]; [eauto|].
+  exfalso. assert (dim_val (l_fmt l) (fst p) n = Some v) as Hv by (unfold dim_val; now rewrite G).
+  specialize (Hall p n v c m Hp Hn Hv Hs). lia.
+Qed.
+
+(* an error of convert is a LaspyException (version rule) or an OverflowError, nothing else *)
+Theorem convert_errors l tgt ver e : wf_las l -> convert l tgt ver = Err e -> e = ELaspy \/ e = EOverflow.
+Proof.
+  intros Hwf H. destruct (hstep (mkHS (l_ver l) (l_fmt l)) (HConvert tgt ver)) as [hs|e'] eqn:Hh.
+  - destruct (convert_outcome l tgt ver hs Hwf Hh) as [(l' & E & _)|[E _]]; rewrite E in H; [discriminate|].
+    right. congruence.
+  - unfold convert in H. rewrite Hh in H. cbn [bind] in H. injection H as <-. left.
+    cbn [hstep] in Hh. unfold checked in Hh.
+    destruct ver as [w|].
+    + destruct (version_known w); [|congruence]. destruct (compat_v w _); congruence.
+    + destruct (preferred _); [|congruence].
+      destruct (version_known _); [|congruence]. destruct (compat_v _ _); congruence.
 Qed.
